@@ -16,7 +16,9 @@ RULE = ("case = LASFile with 1..40 float curves (counts drawn as k*per_line + {-
         "integers, values at half-unit rounding boundaries of the format, denormals, 1e+-300), NaN at non-index "
         "positions; options = version {1.2,2} x wrap x fmt %[flags][width][.prec]{f,F,e,E,g,G} x column_fmt x "
         "len_numeric_field {None,-1,narrow,exact,wide} x spacer x lhs_spacer x data_width x mnemonics_header x "
-        "data_section_header; re-read with engine numpy and normal. Oracle: same curve count/order/mnemonics/rows; "
+        "data_section_header; curve names plain, numeric ('1','2',...) or those of the steering items (NULL, WRAP, DLM, "
+        "VERS); the object's DLM item SPACE (default) or COMMA/TAB as after reading such a file; re-read with engine "
+        "numpy and normal. Oracle: same curve count/order/mnemonics/rows; "
         "finite cell |x'-x| <= 1/2 unit of the last printed digit of (fmt % x) + 2 ulp (exact rational arithmetic); "
         "NaN off the index -> NaN; index never NaN. Non-trivial: wrapped with > 1 physical line per step, or NaN "
         "present, or a field narrower than its token, or per-column formats.")
